@@ -127,6 +127,20 @@ def isStarterModule (m : Module) : Bool :=
   match m.starter with
   | some s => starterModuleLabels.contains s.label || (m.starterIsLoader && m.firstInCds)
   | none => false
+/-- the property `Module.start` (`assert self._components`) -/
+def startPos (m : Module) : Except Err Int :=
+  match m.components with
+  | [] => .error .assertion
+  | c :: _ => .ok c.start
+/-- the property `Module.end`: the end of the last component, not counting a product finalising
+    domain (TD / thioesterase) of a module with more than one component: then `components[-2]` -/
+def endPos (m : Module) : Except Err Int :=
+  match m.components.reverse with
+  | [] => .error .assertion
+  | last :: rest =>
+    match m.end_, rest with
+    | some e, second :: _ => if endTrimLabels.contains e.label then .ok second.stop else .ok last.stop
+    | _, _ => .ok last.stop
 end Module
 
 /-- `list(case) == upcoming[:len(case)]` -/
